@@ -206,7 +206,7 @@ func optLog(o *logdb.Options) []any {
 // ---- logdb queries --------------------------------------------------------------------------------------------------
 
 // run n seeded queries (half events, half transfers) against the real log db; one Q event each.
-func (q *querier) run(ldb *logdb.LogDB, t tables, bestNum uint32, n int) []trace.Ev {
+func (q *querier) run(ldb *logdb.LogDB, t tables, bestNum uint32, n int) ([]trace.Ev, *realErr) {
 	var out []trace.Ev
 	ctx := context.Background()
 	for i := 0; i < n; i++ {
@@ -221,7 +221,12 @@ func (q *querier) run(ldb *logdb.LogDB, t tables, bestNum uint32, n int) []trace
 			}
 			ev["k"], ev["crit"] = "E", q.evCritLog(cs)
 			var rows []*logdb.Event
-			rows, err = ldb.FilterEvents(ctx, &logdb.EventFilter{CriteriaSet: cs, Range: rg, Order: od, Options: op})
+			if re := guard("query", func() error { // an error is an answer (range beyond 28 bits); a panic is not
+				rows, err = ldb.FilterEvents(ctx, &logdb.EventFilter{CriteriaSet: cs, Range: rg, Order: od, Options: op})
+				return nil
+			}); re != nil {
+				return out, re
+			}
 			res = q.rec.eventRows(rows)
 		} else {
 			var cs []*logdb.TransferCriteria
@@ -230,10 +235,18 @@ func (q *querier) run(ldb *logdb.LogDB, t tables, bestNum uint32, n int) []trace
 			}
 			ev["k"], ev["crit"] = "T", q.trCritLog(cs)
 			var rows []*logdb.Transfer
-			rows, err = ldb.FilterTransfers(ctx, &logdb.TransferFilter{CriteriaSet: cs, Range: rg, Order: od, Options: op})
+			if re := guard("query", func() error {
+				rows, err = ldb.FilterTransfers(ctx, &logdb.TransferFilter{CriteriaSet: cs, Range: rg, Order: od, Options: op})
+				return nil
+			}); re != nil {
+				return out, re
+			}
 			res = q.rec.transferRows(rows)
 		}
 		ev["err"] = err != nil
+		if err != nil {
+			ev["msg"] = err.Error()
+		}
 		ev["res"] = res
 		q.st.Queries++
 		if len(res) > 0 {
@@ -241,7 +254,7 @@ func (q *querier) run(ldb *logdb.LogDB, t tables, bestNum uint32, n int) []trace
 		}
 		out = append(out, ev)
 	}
-	return out
+	return out, nil
 }
 
 // ---- HTTP API ---------------------------------------------------------------------------------------------------------
@@ -255,13 +268,15 @@ func newAPI(repo *chain.Repository, ldb *logdb.LogDB) *apiServer {
 	return &apiServer{r}
 }
 
-func (s *apiServer) post(path string, body any) (int, []byte) {
+func (s *apiServer) post(path string, body any) (int, []byte, *realErr) {
 	b, err := json.Marshal(body)
 	must(err)
 	req := httptest.NewRequest(http.MethodPost, path, bytes.NewReader(b))
 	w := httptest.NewRecorder()
-	s.router.ServeHTTP(w, req)
-	return w.Code, w.Body.Bytes()
+	if re := guard("api", func() error { s.router.ServeHTTP(w, req); return nil }); re != nil {
+		return 0, nil, re
+	}
+	return w.Code, w.Body.Bytes(), nil
 }
 
 type apiRange struct {
@@ -339,7 +354,7 @@ func u64log(v *uint64) []any {
 }
 
 // runAPI posts n seeded requests to the real handlers; one Api event each.
-func (q *querier) runAPI(s *apiServer, t tables, bestNum uint32, genesisTime, bestTime uint64, n int) []trace.Ev {
+func (q *querier) runAPI(s *apiServer, t tables, bestNum uint32, genesisTime, bestTime uint64, n int) ([]trace.Ev, *realErr) {
 	var out []trace.Ev
 	for i := 0; i < n; i++ {
 		rg, od, op := q.apiRange(bestNum, genesisTime, bestTime), q.order(), q.apiOptions()
@@ -402,16 +417,23 @@ func (q *querier) runAPI(s *apiServer, t tables, bestNum uint32, genesisTime, be
 				body["criteriaSet"] = js
 			}
 			ev["k"], ev["crit"] = "E", q.evCritLog(cs)
-			code, resp = s.post("/logs/event", body)
+			var re *realErr
+			if code, resp, re = s.post("/logs/event", body); re != nil {
+				return out, re
+			}
 			if code == http.StatusOK {
 				var fes []*api.FilteredEvent
 				if err := json.Unmarshal(resp, &fes); err != nil {
-					fail("api response: %v: %s", err, resp)
+					return out, &realErr{"api", fmt.Sprintf("malformed response: %v", err)}
 				}
 				ev["cnt"] = len(fes)
 				if op != nil {
 					for _, fe := range fes {
-						res = append(res, q.rec.eventRow(eventOfAPI(fe)))
+						e, re := eventOfAPI(fe)
+						if re != nil {
+							return out, re
+						}
+						res = append(res, q.rec.eventRow(e))
 					}
 				}
 			}
@@ -437,16 +459,23 @@ func (q *querier) runAPI(s *apiServer, t tables, bestNum uint32, genesisTime, be
 				body["criteriaSet"] = js
 			}
 			ev["k"], ev["crit"] = "T", q.trCritLog(cs)
-			code, resp = s.post("/logs/transfer", body)
+			var re *realErr
+			if code, resp, re = s.post("/logs/transfer", body); re != nil {
+				return out, re
+			}
 			if code == http.StatusOK {
 				var fts []*api.FilteredTransfer
 				if err := json.Unmarshal(resp, &fts); err != nil {
-					fail("api response: %v: %s", err, resp)
+					return out, &realErr{"api", fmt.Sprintf("malformed response: %v", err)}
 				}
 				ev["cnt"] = len(fts)
 				if op != nil {
 					for _, ft := range fts {
-						res = append(res, q.rec.transferRow(transferOfAPI(ft)))
+						t, re := transferOfAPI(ft)
+						if re != nil {
+							return out, re
+						}
+						res = append(res, q.rec.transferRow(t))
 					}
 				}
 			}
@@ -462,16 +491,18 @@ func (q *querier) runAPI(s *apiServer, t tables, bestNum uint32, genesisTime, be
 		q.st.ApiCalls++
 		out = append(out, ev)
 	}
-	return out
+	return out, nil
 }
 
 // eventOfAPI rebuilds the log-db row from the JSON form (requires includeIndexes).
-func eventOfAPI(fe *api.FilteredEvent) *logdb.Event {
+func eventOfAPI(fe *api.FilteredEvent) (*logdb.Event, *realErr) {
 	if fe.Meta.TxIndex == nil || fe.Meta.LogIndex == nil {
-		fail("api response without indexes")
+		return nil, &realErr{"api", "includeIndexes was requested but the response carries no txIndex/logIndex"}
 	}
 	data, err := hexutil.Decode(fe.Data)
-	must(err)
+	if err != nil {
+		return nil, &realErr{"api", "event data is not hex: " + fe.Data}
+	}
 	e := &logdb.Event{BlockNumber: fe.Meta.BlockNumber, LogIndex: *fe.Meta.LogIndex, BlockID: fe.Meta.BlockID, BlockTime: fe.Meta.BlockTimestamp,
 		TxID: fe.Meta.TxID, TxIndex: *fe.Meta.TxIndex, TxOrigin: fe.Meta.TxOrigin, ClauseIndex: fe.Meta.ClauseIndex, Address: fe.Address, Data: data}
 	for i, t := range fe.Topics { // the JSON form is the list of present topics (always a prefix of the five columns)
@@ -480,14 +511,14 @@ func eventOfAPI(fe *api.FilteredEvent) *logdb.Event {
 			e.Topics[i] = &v
 		}
 	}
-	return e
+	return e, nil
 }
 
-func transferOfAPI(ft *api.FilteredTransfer) *logdb.Transfer {
+func transferOfAPI(ft *api.FilteredTransfer) (*logdb.Transfer, *realErr) {
 	if ft.Meta.TxIndex == nil || ft.Meta.LogIndex == nil {
-		fail("api response without indexes")
+		return nil, &realErr{"api", "includeIndexes was requested but the response carries no txIndex/logIndex"}
 	}
 	return &logdb.Transfer{BlockNumber: ft.Meta.BlockNumber, LogIndex: *ft.Meta.LogIndex, BlockID: ft.Meta.BlockID, BlockTime: ft.Meta.BlockTimestamp,
 		TxID: ft.Meta.TxID, TxIndex: *ft.Meta.TxIndex, TxOrigin: ft.Meta.TxOrigin, ClauseIndex: ft.Meta.ClauseIndex,
-		Sender: ft.Sender, Recipient: ft.Recipient, Amount: (*big.Int)(ft.Amount)}
+		Sender: ft.Sender, Recipient: ft.Recipient, Amount: (*big.Int)(ft.Amount)}, nil
 }
